@@ -94,6 +94,30 @@ template <class T, class E>
 std::unique_ptr<PropHolderBase> reg_call_TE(OVM::ResourceManager &m, int call, int kind, int type, const std::string &name, int defn, bool *exists_out) {
     std::optional<OVM::PropertyPtr<T, E>> r;
     T def = Render<T>::make(defn);
+    // half of the calls go through the per-entity convenience entry points (request_vertex_property<T>, create_shared_cell_property<T>, ...)
+    if ((defn >> 1) & 1) {
+        namespace En = OVM::Entity;
+#define OVMSIM_TYPED(KIND, fn)                                                                                  \
+        if constexpr (std::is_same_v<E, En::KIND>) {                                                            \
+            switch (call) {                                                                                    \
+            case R_REQUEST: r = m.request_##fn##_property<T>(name, def); break;                                 \
+            case R_CREATE_SHARED: r = m.create_shared_##fn##_property<T>(name, def); break;                     \
+            case R_CREATE_PERSISTENT: r = m.create_persistent_##fn##_property<T>(name, def); break;             \
+            case R_CREATE_PRIVATE: r = m.create_private_##fn##_property<T>(name, def); break;                   \
+            case R_GET: r = m.get_##fn##_property<T>(name); break;                                              \
+            case R_EXISTS: if (exists_out) *exists_out = m.fn##_property_exists<T>(name); return nullptr;       \
+            }                                                                                                  \
+        }
+        OVMSIM_TYPED(Vertex, vertex) OVMSIM_TYPED(Edge, edge) OVMSIM_TYPED(HalfEdge, halfedge) OVMSIM_TYPED(Face, face)
+        OVMSIM_TYPED(HalfFace, halfface) OVMSIM_TYPED(Cell, cell)
+        if constexpr (std::is_same_v<E, En::Mesh>) { if (call == R_REQUEST) r = m.request_mesh_property<T>(name, def); else goto generic; }
+#undef OVMSIM_TYPED
+        if (!r) return nullptr;
+        auto h = std::make_unique<PropHolder<T, E>>(*r);
+        h->kind = kind; h->type = type;
+        return h;
+    }
+generic:
     switch (call) {
     case R_REQUEST: r = m.request_property<T, E>(name, def); break;
     case R_CREATE_SHARED: r = m.create_shared_property<T, E>(name, def); break;
